@@ -24,6 +24,7 @@ import (
 	"encoding/gob"
 	"encoding/hex"
 	"fmt"
+	"io"
 	"math"
 	"strconv"
 	"strings"
@@ -698,14 +699,32 @@ func ToUpperFunc(query *Query, current Map, functionOptions *FunctionOptions, ar
 // |   0   |     any    |    data to be hashed      |
 // |   1   |    string  |       hash function       |
 // --------------------------------------------------
+// The bytes a value is hashed from. A scalar is its gob stream; an array is the
+// sequence of the length-prefixed preimages of its elements (gob does not know []any)
+func HashPreimage(buffer *bytes.Buffer, value any) error {
+	if slice, ok := value.([]any); ok {
+		buffer.WriteString(fmt.Sprintf("[%d:", len(slice)))
+		for _, item := range slice {
+			var inner bytes.Buffer
+			if err := HashPreimage(&inner, item); err != nil {
+				return err
+			}
+			buffer.WriteString(fmt.Sprintf("%d:", inner.Len()))
+			buffer.Write(inner.Bytes())
+		}
+		buffer.WriteString("]")
+		return nil
+	}
+	return gob.NewEncoder(buffer).Encode(struct{ Data any }{Data: value})
+}
+
 func HashFunc(query *Query, current Map, functionOptions *FunctionOptions, args []any) (any, error) {
 	err := Guard(2, args)
 	if err != nil {
 		return nil, err
 	}
 	var buffer bytes.Buffer
-	enc := gob.NewEncoder(&buffer)
-	err = enc.Encode(struct{ Data any }{Data: args[0]})
+	err = HashPreimage(&buffer, args[0])
 	if err != nil {
 		return nil, err
 	}
@@ -926,6 +945,10 @@ func ToInt(any any) (int, error) {
 }
 
 func init() {
+	// gob numbers the types of a process in order of first use and writes that
+	// number into its streams. The type HASH encodes is numbered here, before
+	// anything else can be: a hash never depends on what ran before it
+	_ = gob.NewEncoder(io.Discard).Encode(struct{ Data any }{})
 	RegisterImmediateFunction("sum", SumFunc)
 	RegisterImmediateFunction("avg", AvgFunc)
 	RegisterImmediateFunction("min", MinFunc)
